@@ -147,6 +147,9 @@ def xsdLex (b : B) (s : String) : Option Atom :=
   | .decimal => (decOfLex? s).map fun c => ⟨.decimal, c⟩
   | .double => if isXsdDouble s then some ⟨.double, s⟩ else none
   | .date => if isDateLex s then some ⟨.date, s⟩ else none
+  | .dateTime => if isDateTimeLex s then some ⟨.dateTime, s⟩ else none
+  | .gYear => if isGYearLex s then some ⟨.gYear, s⟩ else none
+  | .gYearMonth => if isGYearMonthLex s then some ⟨.gYearMonth, s⟩ else none
   | b => match intOfLex? s with
     | some v => if b.inBounds v then some ⟨b, toString v⟩ else none
     | none => none
